@@ -14,7 +14,7 @@ RULE = ("logical files: 2..3 logical files, each with one of four add_* sequence
         "passed to write() {none, unrelated array, array overriding the equally named data set of every file}; a "
         "configuration that shares a set between logical files must raise, every other one is written and each "
         "logical file is compared with the model (inventory, identities, origins, references, rows, header order). "
-        "frames: 1..3 frames with different row counts, partly equal channel names, data inline or passed to write; "
+        "frames: 1..3 frames with different row counts, partly equal channel names, data inline or passed to write (dict, HDF5, one structured array for all frames); "
         "non-trivial = case whose outcome was compared with the model")
 ASSUMPTIONS = ["strict reader mc/rp66.py", "reference model mc/model.py", "a shared-set configuration may be rejected at "
                "add_* or at write"]
@@ -70,10 +70,10 @@ def cases(shard, tier):
     if shard['kind'] == 'frames':
         for nfr in (1, 2, 3):
             for rows in itertools.product((1, 2, 4), repeat=nfr):
-                if nfr == 3 and len(set(rows)) < 2:
-                    continue
                 for names in ('distinct', 'same-index-name', 'all-same'):
-                    for src in ('inline', 'dict'):
+                    for src in ('inline', 'dict', 'h5', 'struct'):
+                        if src == 'struct' and len(set(rows)) > 1:
+                            continue        # one structured array feeds all frames: equal row counts only
                         yield {'kind': 'frames', 'rows': list(rows), 'names': names, 'src': src}
         return
     seqs = [TEMPLATES[t] for t in shard['templates']]
@@ -146,13 +146,18 @@ def frames_spec(c):
         data[(f, 'i')] = a
         data[(f, 'v')] = b
     sp = {'sul': {'max_record_length': 8192}, 'ops': ops, 'write': {}}
-    if c['src'] == 'dict':
+    if c['src'] != 'inline':
         m = M.Model(sp)
         dd = {}
         for f in range(len(c['rows'])):
             dd[m.objs[f'CI{f}'].dataset_name] = data[(f, 'i')]
             dd[m.objs[f'CV{f}'].dataset_name] = data[(f, 'v')]
-        sp['write']['data'] = {'$datadict': dd}
+        if c['src'] == 'dict':
+            sp['write']['data'] = {'$datadict': dd}
+        elif c['src'] == 'struct':
+            sp['write']['data'] = {'$struct': {'fields': [[k, v] for k, v in dd.items()]}}
+        else:
+            sp['write']['data'] = {'$h5': {('/' + k): v for k, v in dd.items()}}
     return sp
 
 
